@@ -729,6 +729,24 @@ def inline_program(bodies_by_tag):
                         if len(cj["locals"]) - 1 >= cj["argc"] and len(t["args"]) == cj["argc"] and len(j["blocks"]) + len(cj["blocks"]) < 6000:
                             _splice(j, i, cj, report, tag)
                 i += 1
+            # searching adaptors inside helpers that were spliced into a loop-model host (`fn check_output_parties(&self)`
+            # called from validate): the helper was processed under its own name, model its adaptors here
+            host = j.get("owner") or ""
+            if MODELS_ON and any(host == h_ or host.startswith(h_ + "::{") for h_ in LOOP_MODEL_HOSTS):
+                i = n0
+                while i < len(j["blocks"]) and len(j["blocks"]) < 6000:
+                    blk = j["blocks"][i]
+                    t = blk["t"]
+                    if t["k"] == "call" and t["t"] is not None and not blk.get("cleanup") and blk.get("inl") and not t.get("done"):
+                        d_ = ((t.get("f") or {}).get("fn") or {}).get("def", "")
+                        if d_ in ("core::iter::traits::iterator::Iterator::find", "core::iter::traits::iterator::Iterator::any",
+                                  "core::iter::traits::iterator::Iterator::all", "core::iter::traits::iterator::Iterator::position"):
+                            mj = _model(t, host)
+                            if mj is not None:
+                                nb0 = len(j["blocks"])
+                                _splice(j, i, mj, report, tag)
+                                _splice_closure_calls(j, nb0, bodies, report, tag, ensure=lambda c_: process(c_, bodies[c_], stack + [bid]) if len(stack) < MAX_DEPTH else None)
+                    i += 1
         for bid, j in list(bodies.items()):
             # fail-safe: a body the pass cannot handle stays as rustc emitted it
             backup = (list(j["blocks"]), list(j["locals"]))
